@@ -23,8 +23,11 @@ import (
 	"github.com/tdewolff/minify/v2"
 	mincss "github.com/tdewolff/minify/v2/css"
 	minhtml "github.com/tdewolff/minify/v2/html"
+	minjs "github.com/tdewolff/minify/v2/js"
+	minjson "github.com/tdewolff/minify/v2/json"
 	minsvg "github.com/tdewolff/minify/v2/svg"
 	"github.com/tdewolff/parse/v2"
+	xhtml "golang.org/x/net/html"
 
 	"verifharness/h"
 )
@@ -417,6 +420,15 @@ func init() {
 					Impl: fmt.Sprintf("%s|%q|%s", it.call.id, wantPay, c11ParamStr(it.call.params)), Model: fmt.Sprintf("%s|%q|%s", modelMime, modelPay, modelPar)})
 			}
 		}
+		st.End()
+		if err := c11Sequences(c); err != nil {
+			return err
+		}
+		if err := c11Real(c); err != nil {
+			return err
+		}
+		st = c.R.StartStage("known-replay", "replay of the open known findings of C11")
+		st.Count("known findings", false)
 		// known findings: replay
 		for _, k := range h.Known("C11") {
 			if k.Status != "open" {
@@ -466,4 +478,232 @@ func c11PresentList(p map[string]bool) []string {
 	}
 	sort.Strings(out)
 	return out
+}
+
+// ---------- stage: sequences of raw-text elements (state carried from one element to the next) ----------
+
+func c11Sequences(c *Ctx) error {
+	st := c.R.StartStage("embed-sequences", "HTML documents with 2-4 raw-text elements in a row (script/style/iframe; typed or untyped; empty, whitespace-only or non-empty content; with src attribute) over registries of recording stubs for every type: the k-th non-empty element must be handed to the minifier of ITS OWN type attribute / default, whatever the previous elements were; non-trivial = at least two elements and one of them typed")
+	n := c.N(3000, 60000)
+	types := []string{"", "", "module", "application/ld+json", "text/template", "text/css", "text/javascript", "text/x-custom; a=b"}
+	for k := 0; k < n; k++ {
+		r := c.Rng.Fork()
+		ne := 2 + r.Intn(3)
+		var doc strings.Builder
+		type want struct{ mime, payload string }
+		var wants []want
+		typed := false
+		for e := 0; e < ne; e++ {
+			tag := []string{"script", "style", "script", "iframe"}[r.Intn(4)]
+			ty := r.Pick(types)
+			if tag == "iframe" {
+				ty = ""
+			}
+			payload := r.Pick([]string{"", "", "x=1", "a{b:c}", " ", "q"})
+			doc.WriteString("<" + tag)
+			if ty != "" {
+				doc.WriteString(` type="` + ty + `"`)
+				typed = true
+			}
+			if tag == "script" && r.Chance(30) {
+				doc.WriteString(` src=a.js`)
+			}
+			doc.WriteString(">" + payload + "</" + tag + ">")
+			if r.Chance(40) {
+				doc.WriteString(r.Pick([]string{" ", "<p>x</p>", "text"}))
+			}
+			if payload == "" {
+				continue
+			}
+			mime := ""
+			switch {
+			case tag == "iframe":
+				mime = "text/html"
+			case ty == "" && tag == "script":
+				mime = "application/javascript"
+			case ty == "":
+				mime = "text/css"
+			default:
+				mime = strings.TrimSpace(strings.SplitN(ty, ";", 2)[0])
+			}
+			wants = append(wants, want{mime, payload})
+		}
+		var calls []c11Call
+		m := minify.New()
+		for _, mt := range append(c11Mimes, "text/html") {
+			mt := mt
+			m.AddFunc(mt, func(_ *minify.M, w io.Writer, rd io.Reader, params map[string]string) error {
+				b, _ := io.ReadAll(rd)
+				calls = append(calls, c11Call{mt, nil, string(b)})
+				w.Write([]byte(c11Marker(mt, string(b))))
+				return nil
+			})
+		}
+		var out bytes.Buffer
+		var err error
+		d := doc.String()
+		crash := h.Safely(20*time.Second, func() { err = (&minhtml.Minifier{}).Minify(m, &out, strings.NewReader(d), nil) })
+		key := fmt.Sprintf("html sequence doc=%q", d)
+		st.Count(key, ne >= 2 && typed)
+		if crash != "" || err != nil {
+			c.R.Add(h.Finding{Stage: st.Name, Kind: "fail", What: fmt.Sprintf("sequence of raw-text elements: outer call failed: %v %s", err, crash), Input: key})
+			continue
+		}
+		ok := len(calls) == len(wants)
+		for i := 0; ok && i < len(wants); i++ {
+			ok = calls[i].id == wants[i].mime && calls[i].payload == wants[i].payload
+		}
+		if !ok {
+			c.R.Add(h.Finding{Stage: st.Name, Kind: "fail", What: "an embedded element was not handed to the minifier of its own type (state leaked between elements?)", Input: key,
+				Impl: fmt.Sprintf("%v", calls), Model: fmt.Sprintf("%v", wants)})
+		}
+	}
+	st.End()
+	return nil
+}
+
+// ---------- stage: the real sub-minifiers ----------
+
+func c11Real(c *Ctx) error {
+	st := c.R.StartStage("embed-real", "hosts (HTML script/style elements and style/on* attributes, CSS url(data:), HTML URL attributes with data: URIs) over the REAL css/js/html/svg/json minifiers: the embedded part of the output equals what the sub-minifier produces stand-alone for the same payload and parameters; a payload on which the sub-minifier FAILS inside a data: URI must come out as the original payload (re-encoded at most), never half-rewritten; non-trivial = the sub-minifier changed or rejected the payload")
+	reg := func() *minify.M {
+		m := minify.New()
+		m.AddFunc("text/css", mincss.Minify)
+		m.AddFunc("text/html", minhtml.Minify)
+		m.AddFunc("image/svg+xml", minsvg.Minify)
+		m.AddFuncRegexp(regexp.MustCompile("^(application|text)/(x-)?(java|ecma)script$"), minjs.Minify)
+		m.AddFuncRegexp(regexp.MustCompile("[/+]json$"), minjson.Minify)
+		return m
+	}
+	type pay struct{ mime, text string }
+	pays := []pay{
+		{"text/css", "a { color : #FF0000 ; margin : 0px 0px }"}, {"text/css", "a{b:c"}, {"text/css", "A > B { Width : 10.0PX }"},
+		{"application/javascript", "var  x = 1 ;  function f ( a ) { return a * 2 }"}, {"application/javascript", "var = ;"}, {"application/javascript", "if (a) { b() } else { c() }"},
+		{"text/html", "<P CLASS=A>x<SCRIPT>var = ;</SCRIPT>"}, {"text/html", "<P CLASS=\"A\"> x </P>"}, {"text/html", "<DIV><B>y</B></DIV>"},
+		{"image/svg+xml", "<svg  xmlns='http://www.w3.org/2000/svg'><path d='M 10 10 L 20 20'/></svg>"},
+		{"application/json", "{ \"a\" : [ 1.0 , 2 ] }"}, {"application/ld+json", "{ \"A\" : 1 ,"},
+	}
+	n := c.N(600, 20000)
+	for k := 0; k < n; k++ {
+		r := c.Rng.Fork()
+		p := pays[r.Intn(len(pays))]
+		m := reg()
+		sub, subErr := m.Bytes(p.mime, []byte(p.text))
+		var doc string
+		var extract func(out string) (string, bool)
+		host := "text/html"
+		switch r.Intn(4) {
+		case 0: // data URI in CSS
+			host = "text/css"
+			enc := strings.ReplaceAll(string(parse.EncodeURL([]byte(p.text), parse.DataURIEncodingTable)), "'", "%27")
+			doc = "a{background:url('data:" + p.mime + "," + enc + "')}"
+			extract = c11ExtractDataURI
+		case 1: // data URI in an HTML URL attribute
+			enc := strings.ReplaceAll(string(parse.EncodeURL([]byte(p.text), parse.DataURIEncodingTable)), "'", "%27")
+			doc = "<img src='data:" + p.mime + "," + enc + "'>"
+			extract = c11ExtractDataURI
+		default: // raw text element
+			if p.mime != "text/css" && p.mime != "application/javascript" && p.mime != "application/ld+json" && p.mime != "application/json" {
+				continue
+			}
+			if strings.Contains(p.text, "<") {
+				continue
+			}
+			tag, ty := "script", ""
+			if p.mime == "text/css" {
+				tag = "style"
+			} else if p.mime != "application/javascript" {
+				ty = ` type="` + p.mime + `"`
+			}
+			doc = "<p>t</p><" + tag + ty + ">" + p.text + "</" + tag + ">"
+			extract = func(out string) (string, bool) {
+				i := strings.Index(out, "<"+tag)
+				if i < 0 {
+					return "", false
+				}
+				j := strings.Index(out[i:], ">")
+				e := strings.Index(out[i:], "</"+tag)
+				if j < 0 || e < 0 {
+					return "", false
+				}
+				return out[i+j+1 : i+e], true
+			}
+		}
+		var out string
+		var err error
+		crash := h.Safely(30*time.Second, func() { out, err = m.String(host, doc) })
+		key := fmt.Sprintf("%s host doc=%q payload type %s", host, doc, p.mime)
+		st.Count(key, subErr != nil || string(sub) != p.text)
+		if crash != "" {
+			c.R.Add(h.Finding{Stage: st.Name, Kind: "crash", What: crash, Input: key})
+			continue
+		}
+		isData := strings.Contains(doc, "data:")
+		if subErr != nil && !isData {
+			if err == nil {
+				c.R.Add(h.Finding{Stage: st.Name, Kind: "fail", What: "embedded minifier fails on the payload but the outer call reports success", Input: key, Impl: h.Q([]byte(out))})
+			}
+			continue
+		}
+		if err != nil {
+			c.R.Add(h.Finding{Stage: st.Name, Kind: "fail", What: "outer call failed: " + err.Error(), Input: key})
+			continue
+		}
+		got, ok := extract(out)
+		if !ok {
+			c.R.Add(h.Finding{Stage: st.Name, Kind: "fail", What: "embedded part not found in the output", Input: key, Impl: h.Q([]byte(out))})
+			continue
+		}
+		want := string(sub)
+		if subErr != nil {
+			want = p.text // DataURI tolerates a failing sub-minifier: the original payload must survive
+		}
+		if got != want && !(isData && got == p.text) { // a data URI may keep the original when the result is not shorter
+			c.R.Add(h.Finding{Stage: st.Name, Kind: "fail", What: "embedded content is not what its own minifier produces (or, on failure, not the original payload)", Input: key, Impl: h.Q([]byte(got)), Model: h.Q([]byte(want))})
+		}
+	}
+	st.End()
+	return nil
+}
+
+// c11ExtractDataURI finds the data: URI in a host output (HTML attribute value via the x/net/html tokenizer, CSS url(...)
+// with or without quotes) and decodes its payload (percent-encoding or base64).
+func c11ExtractDataURI(out string) (string, bool) {
+	uri := ""
+	if strings.HasPrefix(out, "<") {
+		z := xhtml.NewTokenizer(strings.NewReader(out))
+		for uri == "" {
+			tt := z.Next()
+			if tt == xhtml.ErrorToken {
+				break
+			}
+			if tt == xhtml.StartTagToken || tt == xhtml.SelfClosingTagToken {
+				_, more := z.TagName()
+				for more {
+					var v []byte
+					_, v, more = z.TagAttr()
+					if bytes.HasPrefix(v, []byte("data:")) {
+						uri = string(v)
+					}
+				}
+			}
+		}
+	} else if i := strings.Index(out, "url("); i >= 0 {
+		rest := out[i+4:]
+		if len(rest) > 0 && (rest[0] == '\'' || rest[0] == '"') {
+			if j := strings.IndexByte(rest[1:], rest[0]); j >= 0 {
+				uri = rest[1 : 1+j]
+			}
+		} else if j := strings.IndexByte(rest, ')'); j >= 0 {
+			uri = rest[:j]
+		}
+	}
+	if uri == "" {
+		return "", false
+	}
+	_, data, err := parse.DataURI([]byte(uri))
+	if err != nil {
+		return "", false
+	}
+	return string(data), true
 }
